@@ -40,7 +40,7 @@ class C07(Engine):
     prop = "C07"
     name = "read-fault-sim+conservation-monitor"
     level = "fault_enumeration"
-    expected_kinds = {"fault_free", "garbage_nl_kept", "garbage_nl_lost", "lost_final_newline", "multi_file_garbage"}
+    expected_kinds = {"fault_free", "garbage_nl_kept", "garbage_nl_lost", "lost_final_newline", "multi_file_garbage", "stray_eol"}
     rule_text = ("Fault-free: every workload file at API level with the conservation monitor (I1 for all, I2/I3 for files the tool "
                  "itself finds clean, statement count for generated files). Fault-injecting: for every workload program and EVERY "
                  "statement boundary, seeded fragments of the unrecognisable family, newline kept or lost, plus the lost final "
@@ -54,7 +54,7 @@ class C07(Engine):
 
     def setup(self):
         q = self.tier == "quick"
-        self.pools = Pools(self.seed, n_gen=90 if q else 600, n_viol=20 if q else 200, n_cut=0, corpus_limit=None, tag="c07")
+        self.pools = Pools(self.seed, n_gen=90 if q else 600, n_viol=60 if q else 400, n_cut=0, corpus_limit=None, tag="c07")
         self.pools.register()
 
     def scenarios(self):
@@ -64,8 +64,27 @@ class C07(Engine):
         # A. fault-free
         for fid in sorted(P.files):
             yield idx, {"kind": "free", "generated": P.meta[fid]["group"] == "gen", "nstmts": P.meta[fid].get("nstmts"),
+                        "count_known": P.meta[fid].get("nstmts") is not None,
                         "ops": [{"op": "api", "file": fid}]}
             idx += 1
+        # A2. a stray character sequence at the end of EVERY preprocessor line of every generated program: the lexer drops it
+        #     (BAD_LEXEME), the segmentation must stay what the generator emitted
+        idx = 500_000
+        for fid in P.groups.get("gen", []):
+            f = P.files[fid]
+            nst = P.meta[fid].get("nstmts")
+            if nst is None:
+                continue
+            off = 0
+            for ln in f["content"].split("\n"):
+                end = off + len(ln)
+                if ln.lstrip().startswith("#") and off > 0:
+                    for tail in (" \\ ", " \\\t", " @", " $ "):
+                        yield idx, {"kind": "free", "generated": False, "count_known": True, "nstmts": nst, "fault": "stray_eol",
+                                    "files": {"x": {"name": f["name"], "base": fid, "splices": [[end, end, tail]], "fault_desc": f"stray_eol({tail!r})"}},
+                                    "ops": [{"op": "api", "file": "x"}]}
+                        idx += 1
+                off = end + 1
         # B. garbage at every statement boundary (CLI level, default options)
         groups = ("gen", "special_clean", "special_notice", "corpus_headed", "viol", "special_erroneous")
         bases = []
@@ -219,7 +238,7 @@ class C07(Engine):
         o = res["ops"][0]
         if kind == "free":
             fid = sc["ops"][0]["file"]
-            vs += self.check_I1(o, "fault-free")
+            vs += self.check_I1(o, "fault-free" if not sc.get("fault") else sc["fault"])
             # I2/I3 hold for files the tool itself finds clean, and for generated programs whatever their verdict
             # (they are balanced and one-statement-per-line by construction; validated on 3 000 generated files)
             if classify(o) == "clean" or (sc.get("generated") and o.get("outcome") == "verdict"):
@@ -266,6 +285,13 @@ class C07(Engine):
                     want = sc["nstmts"]
                     if want != len(pops):
                         vs.append(Violation(self.prop, "C07.I2-statement-count", f"generated file: {want} statements emitted, {len(pops)} recognised", {}))
+
+            if sc.get("count_known") and not sc.get("generated") and o.get("outcome") == "verdict":
+                # a generated program with a violation that leaves the segmentation alone: the statement count is still known
+                if sc["nstmts"] != len(o["pops"]):
+                    vs.append(Violation(self.prop, "C07.I2-statement-count",
+                                        "violating variant of a generated file: the number of recognised statements differs from the number emitted",
+                                        {"emitted": sc["nstmts"], "recognised": len(o["pops"]), "origin": file_of(sc, fid).get("origin")}))
         elif kind == "multi":
             if o.get("end") != "invalid-scenario":
                 vs += self.check_I5(sc, o)
@@ -291,7 +317,7 @@ class C07(Engine):
         kind = sc.get("kind")
         o = r["ops"][0]
         if kind == "free":
-            self.fire("fault_free")
+            self.fire(sc.get("fault") or "fault_free")
             c = classify(o)
             self.count("free_classes", c)
             pops = o.get("pops") or []
